@@ -22,6 +22,10 @@ bool nontrivial(const std::string &prop, const StepFacts &f) {
                               has(f, "removed_multi_by_rmloops"));
     if (prop == "C05")
         return kinds >= 4 && (has(f, "setw_present_desc") || has(f, "bulk_eff"));
+    if (prop == "C09")
+        return (has(f, "reversal_in_history") || has(f, "conversion_in_history")) && (has(f, "relabel") || has(f, "rm_eff"));
+    if (prop == "C17")
+        return has(f, "forced_dup") && kinds >= 4;
     if (prop == "C16")
         return has(f, "forced_dup") && (has(f, "dedup_eff") || has(f, "rm_all_copies"));
     return kinds >= 3;
@@ -36,10 +40,13 @@ void run(const Case &c, verif_result *out) {
     eo.pairValues = c.geti("pairvalues", 0) != 0;
     eo.bigMult = c.geti("bigmult", 0) != 0;
     size_t n0 = (size_t)c.geti("n0", 0);
-    size_t cap = c.geti("bign", 0) ? 80 : 12;
+    size_t cap = c.geti("huge", 0) ? 800 : c.geti("bign", 0) ? 80 : 12;
     if (n0 > cap)
         n0 = cap;
     eo.maxN = cap;
+    eo.light = c.geti("huge", 0) != 0;
+    eo.sparseEvery = (unsigned)c.geti("sparse", 0);
+    eo.safetyOnly = c.geti("safety_only", 0) != 0;
     Engine<G> e(n0, eo);
     std::string cls = c.get("class") + ":" + c.get("label", "none");
     std::string observer;
@@ -55,6 +62,11 @@ void run(const Case &c, verif_result *out) {
                 break;
             }
         }
+    if (r.empty()) {
+        r = e.finish(observer);
+        if (!r.empty())
+            failedOp = "final-observation";
+    }
     if (!r.empty()) {
         std::string msg = "property " + eo.prop + " class " + cls + " step " + std::to_string(stepNo) + " (" + failedOp + "): " + r +
                           "\ncalls so far: " + e.trace;
